@@ -11,7 +11,7 @@ if sh("git", "-C", "/repo", "status", "--porcelain").stdout.strip():
 rows = []
 only = sys.argv[1:]
 scratch = tempfile.mkdtemp(prefix="seed_run_")
-for d in sorted(glob.glob("/verif/seeded/*/")):
+for d in sorted(glob.glob("/verif/seeded/C*-*/")):
     meta = json.load(open(d + "meta.json"))
     if only and meta["id"] not in only and meta["property"] not in only:
         continue
